@@ -23,7 +23,10 @@ uint64_t replay_next(void);
 #else
 uint8_t nondet_u8(void); uint16_t nondet_u16(void); uint32_t nondet_u32(void); uint64_t nondet_u64(void);
 int nondet_int(void);
-#define ND_DRAW(T, fn) ((T) (nd_log[nd_n < ND_MAX - 1 ? nd_n++ : ND_MAX - 1] = (uint64_t) fn()))
+/* every draw is assigned to the scalar nd_cur: the sequence of its assignments in a counterexample trace is the
+ * draw sequence that the native replay feeds back through argv */
+extern uint64_t nd_cur;
+#define ND_DRAW(T, fn) ((T) (nd_cur = (uint64_t) fn()))
 #define VASSUME(c) __CPROVER_assume(c)
 #define HAVOC_OBJ(p, n) __CPROVER_havoc_slice((p), (n))
 #ifdef WITNESS
